@@ -24,6 +24,7 @@
   `remove_file` fails on a directory; `Path::exists` follows symlinks.
 -/
 import MdModel.Prelude
+import MdModel.SymParse
 namespace MdModel.CacheFs
 open MdModel
 
@@ -109,32 +110,39 @@ def parseOk (b : Bytes) : Bool := (P.parse b).isSome
 
 end ParserModel
 
-/-- bytes `Url::to_string` never produces (it percent-encodes them); the `INFO URL` line is cut
-    at `\r`/`\n` and its leading blanks are skipped when it is read back -/
-def UrlClean (u : Url) : Prop := ∀ b ∈ u, b ≠ 10 ∧ b ≠ 13 ∧ b ≠ 32 ∧ b ≠ 9
+/-- what `Url::to_string` produces: ASCII (everything else is percent-encoded / punycoded) without
+    blanks, tabs, CR, LF. The `INFO URL` line is cut at `\r`/`\n`, its leading blanks are skipped and
+    its text must be valid UTF-8 when it is read back (parser.rs:150 `info_url`). -/
+def UrlClean (u : Url) : Prop := ∀ b ∈ u, b ≠ 10 ∧ b ≠ 13 ∧ b ≠ 32 ∧ b ≠ 9 ∧ b < 128
 
 /-- the body ends in a line feed -/
 def EndsNl (b : Bytes) : Prop := ∃ pre, b = pre ++ [10]
 
-/-- Facts about the parser used by the theorems of C16. They are theorems about the parser model
-    of C09/C10 (proved there, assumed here — see the trusted base):
+/-- Facts about the parser used by the theorems of C16 — the interface between the cache protocol
+    and the parser. For the parser model of C09/C10 driven by the loop of `parse_async` (`Real.model`
+    below) all three are THEOREMS (`MdProofs.Lemmas.CacheFsReal`: `Real.laws`); for the small
+    line-buffering instance `Toy.model` too (`Toy.laws`).
     * `callback_prefix`  (C10.7) the concatenated callback arguments are a prefix of what the
       reader delivered, and all of it when the result is `Ok`;
     * `chunk_independent` (C10.6, same hypothesis as there: all lines shorter than 80 KiB) a
       successful streaming parse yields the table of the whole-buffer parse of the same bytes;
     * `info_url_trailer` (DESIGN §6.C16) appending the `INFO URL` line to a body that parses AND
-      ends in a line feed keeps the table and sets the URL. (Without "ends in a line feed" this is
-      false for the real parser: a body whose unterminated last line is longer than the 160 KiB
-      window parses `Ok` — over-long-line recovery discards it — and an appended note would be
-      glued to that line and discarded with it. That was a genuine defect found by this check and
-      repaired in /repo by 4002240: such a body is no longer committed, see `updNl`.) -/
+      ends in a line feed keeps the table and sets the URL — whatever the body contains (an open
+      FUNC / STACK CFI INIT item is finished by the note; an `INFO URL` line of the body itself is
+      overridden by the later note), on the same domain (all lines of the entry, the note included,
+      shorter than 80 KiB: an over-long note would be dropped as corrupt like any over-long line).
+      (Without "ends in a line feed" this is false for the real parser: a body whose unterminated
+      last line is longer than the 160 KiB window parses `Ok` — over-long-line recovery discards it —
+      and an appended note would be glued to that line and discarded with it. That was a genuine
+      defect found by this check and repaired in /repo by 4002240: such a body is no longer
+      committed, see `updNl`.) -/
 structure ParserLaws (P : ParserModel) : Prop where
   callback_prefix : ∀ rx s cb, P.runRev rx = some (s, cb) →
     (∃ rest, cb ++ rest = bodyOf rx) ∧ (∀ fin t, P.finish s = some (fin, t) → cb ++ fin = bodyOf rx)
   chunk_independent : ∀ rx cb t, P.shortLines (bodyOf rx) → P.stream rx = some (cb, t) →
     P.parse (bodyOf rx) = some t
-  info_url_trailer : ∀ body t u, UrlClean u → EndsNl body → P.parse body = some t →
-    P.parse (body ++ trailer u) = some (P.setUrl t u)
+  info_url_trailer : ∀ body t u, UrlClean u → EndsNl body → P.shortLines (body ++ trailer u) →
+    P.parse body = some t → P.parse (body ++ trailer u) = some (P.setUrl t u)
 
 /-! ### One `locate_symbols` call as a state machine -/
 
@@ -361,6 +369,128 @@ def model : ParserModel :=
     σ := St, init := ⟨[]⟩, feed := feed, finish := finish }
 
 end Toy
+
+/-! ### The real parser: the C09/C10 model of the Breakpad symbol parser inside `parse_async`
+
+  `SymbolFile::parse_async` (sym_file/mod.rs:198-328) is the loop of `SymbolFile::parse`
+  (`MdModel.Stream`, the blocks `recoverBlock` / `readBlock` / `parseBlock` and the `size == 0`
+  branch) around a different reader: the current HTTP chunk. One iteration is
+
+      [recovery block]; if the chunk is exhausted { response.chunk().await }; read; fill;
+      if size == 0 { … `!tried_to_grow && !(had_space && response_ended)` … } else …; parse_more; callback
+
+  so the future is suspended AFTER the recovery block of an iteration and BEFORE its read. The state
+  between two `response.chunk().await` (`σ`) is therefore a loop state (`Stream.St` with the
+  symbol parser's state `Sym.PState`) taken at that point, with an exhausted reader (`unread = []`).
+  `feed` hands it the next chunk and runs the loop until the chunk is exhausted again; `finish` is
+  the loop after `response.chunk()` returned `None` (every further `chunk()` returns `None` again).
+  The bytes reported to the tee callback are the entries the loop pushed on `cb` meanwhile.
+
+  An EMPTY chunk is not an event of this model (`feed s [] = (s, [])`): hyper's HTTP/1 decoder never
+  yields an empty data frame (`Conn::poll_read_body`), reqwest's gzip decoder neither (`BytesCodec`),
+  and HTTP/2 is not compiled in. (`parse_async` itself would take an empty chunk for a zero-length
+  read, i.e. possibly for the end of the input — recorded as an assumption about the transport.) -/
+namespace Real
+open MdModel.Gen.SymConsts
+
+abbrev LoopSt := Stream.St Sym.PState
+abbrev LoopOut := Stream.Out Sym.PState
+
+/-- the `if size == 0 { … }` branch of `parse_async` (mod.rs:264-305): `Stream.zeroBlock` with the
+    end-of-input test `!tried_to_grow && !(had_space && response_ended)` -/
+def zeroBlockA (hadSpace ended : Bool) (s : LoopSt) : Sum LoopSt (LoopOut × LoopSt) :=
+  if s.justFinished && !s.buf.data.isEmpty then Stream.parseBlock Sym.symOps s
+  else if s.fullyConsumed then .inr (.ok s.ps, s)
+  else if !s.triedToGrow && !(hadSpace && ended) then
+    let newCap := Stream.satDouble s.buf.cap
+    if newCap > MAX_BUFFER_CAPACITY then .inl { s with inRecovery := true }
+    else .inl { s with buf := s.buf.grow newCap, triedToGrow := true }
+  else if s.totalConsumed = 0 then .inr (.err Stream.errEmpty 0, s)
+  else .inr (.err Stream.errEof (Sym.symOps.lines s.ps), s)
+
+/-- the part of an iteration after the chunk fetch (mod.rs:258-326); `ended` = `response_ended`.
+    The reader is the rest of the current chunk (`unread`, empty schedule: `impl Read for &[u8]`
+    fills all the space it is given). -/
+def afterFetch (ended : Bool) (s1 : LoopSt) : Sum LoopSt (LoopOut × LoopSt) :=
+  let hadSpace : Bool := s1.buf.availableSpace > 0
+  let r := Stream.readBlock s1
+  if r.2.length = 0 then zeroBlockA hadSpace ended r.1
+  else Stream.parseBlock Sym.symOps { r.1 with triedToGrow := false }
+
+/-- the `if in_panic_recovery { … }` block at the top of the next iteration (mod.rs:214-241) -/
+def recover (s : LoopSt) : LoopSt :=
+  if s.inRecovery then Stream.recoverBlock Sym.symOps s else s
+
+inductive Pumped where
+  /-- the chunk is exhausted: `response.chunk().await` -/
+  | await (s : LoopSt)
+  /-- `parse_async` returned -/
+  | returned (out : LoopOut) (sf : LoopSt)
+  | fuel
+
+/-- the loop while the current chunk lasts. Every iteration consumes input or changes a flag
+    (`Stream.measure` decreases), so `fuel = measure + 1` is enough; `MdProofs.Lemmas.CacheFsReal`
+    (`feed_total`) shows that `fuel` is never the answer. -/
+def pump : Nat → LoopSt → Pumped
+  | 0, _ => .fuel
+  | fuel + 1, s1 =>
+    match afterFetch false s1 with
+    | .inr (out, sf) => .returned out sf
+    | .inl s' =>
+      let s1' := recover s'
+      if s1'.unread.isEmpty then .await s1' else pump fuel s1'
+
+/-- what the callback was given between two states: the entries pushed on `cb` (newest first) -/
+def newCb (old new : LoopSt) : Bytes :=
+  (new.cb.take (new.cb.length - old.cb.length)).reverse.flatten
+
+def feedFuel (s : LoopSt) (b : Bytes) : Nat := 8 * b.length + 4 * s.buf.data.length + 4
+
+/-- one `Some(chunk)`: `none` = `parse_async` returned (an `Err`: with bytes still unread it
+    cannot be `Ok`, `feed_not_ok`) -/
+def feed (s : LoopSt) (b : Bytes) : Option (LoopSt × Bytes) :=
+  if b.isEmpty then some (s, []) else
+  match pump (feedFuel s b) { s with unread := b } with
+  | .await s' => some (s', newCb s s')
+  | _ => none
+
+/-- the loop after the end of the response -/
+def drain : Nat → LoopSt → Option (LoopOut × LoopSt)
+  | 0, _ => none
+  | fuel + 1, s1 =>
+    match afterFetch true s1 with
+    | .inr r => some r
+    | .inl s' => drain fuel (recover s')
+
+def finishFuel (s : LoopSt) : Nat := 4 * s.buf.data.length + 4
+
+/-- `response.chunk()` returned `None`: `Ok(parser.finish())` or an `Err` -/
+def finish (s : LoopSt) : Option (Bytes × Sym.SymbolFile) :=
+  match drain (finishFuel s) s with
+  | some (.ok ps, sf) =>
+    (match Sym.finish ps with
+     | .ok f => some (newCb s sf, f)
+     | .panic _ => none)
+  | _ => none
+
+/-- `SymbolFile::from_bytes` / `from_file` (a reader that fills the buffer: the empty schedule) -/
+def parse (b : Bytes) : Option Sym.SymbolFile :=
+  match (Sym.parseResult b []).1 with
+  | .ok f => some f
+  | _ => none
+
+/-- every newline-free stretch (every line, an unterminated last one included) is shorter than
+    `MAX_BUFFER_CAPACITY / 2` = 80 KiB (`MdModel.Stream.ShortLines` of the proof side) -/
+def shortLines (input : Bytes) : Prop :=
+  ∀ a seg b, input = a ++ seg ++ b → Stream.NL ∉ seg → seg.length < MAX_BUFFER_CAPACITY / 2
+
+def init : LoopSt := Stream.init INITIAL_BUFFER_CAPACITY {} [] []
+
+def model : ParserModel :=
+  { Sym := Sym.SymbolFile, parse := parse, setUrl := fun t u => { t with url := some u },
+    shortLines := shortLines, σ := LoopSt, init := init, feed := feed, finish := finish }
+
+end Real
 
 /-! ### line protocol
 
